@@ -10,9 +10,7 @@ import vlib
 import c01gen as G
 import c03gen as G3
 
-KNOWN_TEXT_NESTING = 'text-nesting-stack-overflow'
 KNOWN_FANOUT = 'reference-fan-out-exponential'
-KNOWN_F32_BOUND = 'f32-bound-debug-assert'
 KNOWN_TEXTPATH = 'textpath-huge-path'
 KNOWN_FONT = 'stroked-text-huge-font-size'
 KNOWN_IMAGE = 'image-huge-size'
@@ -175,8 +173,14 @@ def huge_image(data):
 
 
 def origin_sign(data):
+    """a transform-origin value with a token that consists of a sign and / or a dot only"""
     t = _text(data)
     for m in re.finditer(r'transform-origin\s*[=:]\s*"?([^";]*)', t):
+        for tok in re.split(r'[\s,]+', m.group(1).strip()):
+            if re.fullmatch(r'[+-]?\.?', tok) and tok != '':
+                return True
+            if re.fullmatch(r'[+-]\.?|\.', tok):
+                return True
         if re.search(r'(?<![0-9eE.])[+-](?![0-9.])', m.group(1)):
             return True
     return False
@@ -249,7 +253,7 @@ def run(ctx):
             except (OSError, UnicodeDecodeError):
                 texts[p] = None
         return texts[p]
-    nmut = 1000 if quick else 8000
+    nmut = 700 if quick else 8000
     small = [p for p in corpus if os.path.getsize(p) < 20000]
     made = 0
     while made < nmut:
@@ -263,7 +267,7 @@ def run(ctx):
             kind += '+' + kind2
         add("mutant(%s) of %s" % (kind, os.path.relpath(p, vlib.CORPUS)), 'mutant', m.encode('utf-8', 'replace'))
         made += 1
-    ngram = 800 if quick else 6000
+    ngram = 600 if quick else 6000
     for i in range(ngram):
         add("grammar %d" % i, 'grammar', G.grammar_doc(rng, els, ats, 10 + rng.below(60)).encode())
     for label, d in G.nesting_docs():
@@ -277,7 +281,7 @@ def run(ctx):
         d = G3.cycle_doc(kinds, places)
         add("refgraph %s" % '>'.join(kinds), 'refgraph', G3.to_svg(d).encode())
     # gzip of a sample of everything above
-    ngz = 300 if quick else 1500
+    ngz = 200 if quick else 1500
     pool = [x for x in inputs if x[4] is not None]
     for x in rng.sample(pool, min(ngz, len(pool))):
         add("gzip of " + x[0], 'gzip', G.gz(x[4]))
@@ -286,7 +290,7 @@ def run(ctx):
         data = open(p, 'rb').read()
         add("gzip of " + os.path.relpath(p, vlib.CORPUS), 'gzip', G.gz(data))
         inputs[-1] = inputs[-1][:3] + (len(data),) + inputs[-1][4:]
-    nmal = 600 if quick else 6000
+    nmal = 400 if quick else 6000
     seeds = []
     for _ in range(nmal):
         x = rng.choice(pool)
@@ -300,7 +304,7 @@ def run(ctx):
     heavy_set = set(heavy_idx)
     light_idx = [i for i in range(len(inputs)) if i not in heavy_set]
     jobs = [(i, '-') for i in light_idx]
-    ncross = 1000 if quick else 8000
+    ncross = 600 if quick else 8000
     for _ in range(ncross):
         jobs.append((rng.choice(light_idx), rng.choice(G.OPTION_SETS[1:])))
     rng.shuffle(jobs)
@@ -356,9 +360,7 @@ def run(ctx):
             return
         reported.add(sig)
         text = "%s on %s [%s]" % (bad, label, stream)
-        if data is not None and 'stack overflow' in bad and text_nesting_depth(data) > 1024:
-            ctx.known_or_violation(KNOWN_TEXT_NESTING, text, replay)
-        elif data is not None and ('CPU time' in bad or 'time limit' in bad) and fan_out(data) >= 10000:
+        if data is not None and ('CPU time' in bad or 'time limit' in bad) and fan_out(data) >= 10000:
             ctx.known_or_violation(KNOWN_FANOUT, text, replay)
         elif data is not None and ('time limit' in bad or 'CPU time' in bad or ('kurbo' in bad and 'shift left with overflow' in bad)) \
                 and textpath_huge(data):
@@ -371,8 +373,6 @@ def run(ctx):
             ctx.known_or_violation(KNOWN_TORIGIN, text, replay)
         elif data is not None and ('time limit' in bad or 'CPU time' in bad or 'signal6' in bad) and arc_huge(data):
             ctx.known_or_violation(KNOWN_ARC, text, replay)
-        elif data is not None and prof == 'debug' and 'val.is_finite()' in bad and 'parser/mod.rs' in bad and f32_bound_class(data):
-            ctx.known_or_violation(KNOWN_F32_BOUND, text, replay)
         else:
             ctx.violation(text, replay)
 
@@ -383,7 +383,7 @@ def run(ctx):
         else:
             sub = jobs
         items = ["%s\t%s" % (o, inputs[i][2]) for i, o in sub]
-        outs = ctx.rvh_batch(bins[prof], 'c01-parse', items, per_item_timeout=3 if prof == 'release' else 8, chunk=10)
+        outs = ctx.rvh_batch(bins[prof], 'c01-parse', items, per_item_timeout=2 if prof == 'release' else 4, chunk=8)
         for (i, o), res_ in zip(sub, outs):
             judge(prof, i, o, res_)
             if len(ctx.violations) > 12:
@@ -391,7 +391,7 @@ def run(ctx):
         # heavy inputs: one process each so that a hang costs one time limit only
         hsub = hjobs if prof == 'release' else [j for j in hjobs if fan_out_label_ok(inputs[j[0]][0])]
         hitems = ["%s\t%s" % (o, inputs[i][2]) for i, o in hsub]
-        houts = ctx.rvh_batch(bins[prof], 'c01-parse', hitems, per_item_timeout=30 if prof == 'release' else 90, chunk=1)
+        houts = ctx.rvh_batch(bins[prof], 'c01-parse', hitems, per_item_timeout=20 if prof == 'release' else 45, chunk=1)
         for (i, o), res_ in zip(hsub, houts):
             judge(prof, i, o, res_)
         if len(ctx.violations) > 12:
@@ -533,7 +533,7 @@ def build_corr(ctx, binp, quick):
         for i in range(1, k + 1):
             kids.append(E('g', 'b%d' % i, kids=[E('use').add('href', 'b%d' % (i - 1)) for _ in range(fan)]))
         doc("use bomb %d^%d" % (fan, k), kids)
-    for depth in (100, 1023, 1024, 1025):
+    for depth in ((100, 1024, 1025) if quick else (100, 1023, 1024, 1025)):
         root = inner = E('g')
         for _ in range(depth - 1):
             nxt = E('g')
@@ -541,8 +541,16 @@ def build_corr(ctx, binp, quick):
             inner = nxt
         inner.kids.append(E('path'))
         doc("nesting %d" % depth, [root])
+    # the depth counter inside `text` (fix 09fa255): text > tspan^depth, no character data
+    for depth in ((3, 1023, 1024) if quick else (3, 1020, 1021, 1022, 1023, 1024, 1025)):
+        root = inner = E('text')
+        for _ in range(depth):
+            nxt = E('tspan')
+            inner.kids.append(nxt)
+            inner = nxt
+        doc("text nesting %d" % depth, [root, E('g', kids=[E('text', kids=[E('path'), E('tspan', 'ts1')])])])
     # the depth counter across a use (+2): g nest of `depth`, then a use of t = g > g > path
-    for depth in (1017, 1018, 1019, 1020, 1021, 1022, 1023):
+    for depth in ((1020, 1021) if quick else (1017, 1018, 1019, 1020, 1021, 1022, 1023)):
         root = inner = E('g')
         for _ in range(depth - 1):
             nxt = E('g')
